@@ -68,6 +68,31 @@ def run(ctx):
             diffs.append({"ops": [str(o_)[:60] for o_ in ops], "impl_len": len(kb), "model": mouts[-1][:80]})
         elif len(samples) < 4:
             samples.append({"header": ops[0][1], "key_len": len(ops[-1][1]), "mask": ops[-1][2], "key_block_len": len(kb)})
+    # --- a reused KeyBlock whose algorithm (hence default mask) changes between wraps: lengths must follow the CURRENT algorithm
+    seqs = []
+    for v in "ABCD":
+        for a1, a2 in (("T", "A"), ("A", "T"), ("R", "A"), ("D", "R"), ("A", "0")):
+            kbpk = rng.randbytes(16)
+            ops = [("L", v + "0000P0" + a1 + "E00N0000"), ("W", bytes(16), None), ("F", 2, a2)] + [("W", bytes(kl), None) for kl in (8, 16, 24, 32)] \
+                + [("L", v + "0000P0" + a1 + "E00N0000"), ("W", bytes(24), None)]
+            seqs.append((kbpk, ops))
+    both, _ = t.run_both(seqs)
+    for (kbpk, ops), (impl, model) in zip(seqs, both):
+        if impl != model:
+            diffs.append({"sequence": [core.op_token(o_)[:40] for o_ in ops], "impl": [len(x) for x in impl[1]], "model": [len(x) for x in model[1]]})
+        alg = None
+        for o_, out in zip(ops, impl[1]):
+            if o_[0] == "L":
+                alg, v = o_[1][7], o_[1][0]
+            if o_[0] == "F" and o_[1] == 2:
+                alg = o_[2]
+            if o_[0] == "W" and out.startswith("str:"):
+                evals += 1
+                fresh = tr31.wrap(kbpk, v + "0000P0" + alg + "E00N0000", o_[1], None)
+                if len(core.unshow_str(out[4:])) != len(fresh):
+                    viol.append({"what": "key block length on a reused object differs from a fresh object with the same header (stale mask)",
+                                 "input": {"ops": [core.op_token(x)[:60] for x in ops]}, "expected": len(fresh), "observed": len(core.unshow_str(out[4:]))})
+    dist["algorithm_switch_sequences"] = len(seqs)
     return {"evaluations": evals, "distinct_nontrivial": len(seen), "samples": samples, "distribution": dist,
             "diffs": diffs, "violations": viol, "exhaustive": bool(ctx.thorough),
             "rule": "versions A-D x algorithms {T,D,A,R,0} x mask {None, -8..64} x key lengths 0..64 x block layouts "
